@@ -30,6 +30,8 @@ def main():
       continue
     job = json.loads(line)
     mon = common.Mon(prop)
+    import time
+    t0 = time.time()
     try:
       mod.run(job, mon)
     except Exception:  # pylint: disable=broad-except
@@ -46,6 +48,7 @@ def main():
       except Exception:  # pylint: disable=broad-except
         origin = 'unknown'
     out['brax_origin'] = origin
+    out['wall_s'] = round(time.time() - t0, 1)
     sys.stdout.write('@@RESULT ' + json.dumps(common.jsonable(out)) + '\n')
     sys.stdout.flush()
 
